@@ -345,9 +345,25 @@ inline Result exec_c10(const Plan& plan)
         if(op.name == "sweep_ops")
         {
             // every truncation point x every catalogue op
-            for(u64 n = 0; n <= N && !res.violation; n++)
+            // frames with blocks extended to tens of kilobytes: every truncation point up to 3000, then a stride
+            // plus the neighbourhood of every op's extent
+            const u64 step = N > 3000 ? 1 + N / 1500 : 1;
+            u64 points = 0;
+            for(u64 n = 0; n <= N && !res.violation; n += (n < 3000 ? 1 : step))
+            {
+                points++;
                 for(std::size_t i = 0; i < ops.size() && !res.violation; i++) c.run(ops[i], bytes, n, i);
-            sim::stats().count("fault.fired.truncate", N + 1);
+            }
+            if(step > 1)
+                for(std::size_t i = 0; i < ops.size() && !res.violation; i++)
+                    for(u64 n : {ops[i].extent - 1, ops[i].extent, ops[i].extent + 1})
+                        if(n <= N && n >= 3000)
+                        {
+                            points++;
+                            c.run(ops[i], bytes, n, i);
+                        }
+            if(!res.violation) c.run(ops[0], bytes, N, 0);
+            sim::stats().count("fault.fired.truncate", points);
         }
         else if(op.name == "one")
         {
